@@ -1,4 +1,4 @@
-import HeraProofs.Props.C02
+import HeraProofs.Lemmas.WF
 import HeraModel.Generated.OpFacts
 /-
   C15 — runs are repeatable, isolated from earlier runs, and throttling cuts cleanly.
